@@ -2,7 +2,9 @@
 
 package reorgdetector
 
-import "sync"
+import "golang.org/x/sync/errgroup"
 
-// newHeadersCacheLock is the lock that serialises the header requests of one reorg check (see verif_hooks_on.go).
-func newHeadersCacheLock() sync.Locker { return &sync.Mutex{} }
+// verifSubscriberOrder and verifGo are no-ops in normal builds (see verif_hooks_on.go).
+func verifSubscriberOrder(ids []string) []string { return ids }
+
+func verifGo(g *errgroup.Group, f func() error) { g.Go(f) }
